@@ -1211,3 +1211,69 @@ def check_reset_clears(chk, ix):
                              "left-over state of the earlier parse (a table, a doc-string, the line counter) leaks into this one" % (meth, order[:4]),
                              file=f.file, line=f.lineno, stmt="def " + meth))
     chk.require_instances("E7", 2)
+
+
+WHAT["P14"] = ("in every language of the keyword table (behave/i18n.py) a step line that starts with a step keyword is read with that "
+               "keyword and its step type - also when a shorter keyword of another type is a prefix of it")
+
+
+def check_step_keywords_all_languages(chk, ix):
+    """P14: Parser.parse_step evaluated on 'KEYWORD + text' for every step keyword of every language of the table in the source."""
+    chk.rule("P14", WHAT["P14"])
+    pc = ix.cls("behave.parser:Parser")
+    f = pc.lookup("parse_step")
+    mod = ix.module("behave.i18n")
+    node = mod.consts.get("languages")
+    if f is None or node is None:
+        raise AnalysisError("anchor missing: Parser.parse_step / behave.i18n.languages")
+    try:
+        table = ast.literal_eval(node)
+    except Exception as e:      # noqa
+        raise AnalysisError("behave.i18n.languages is not a literal table: %s" % e)
+    types = ("given", "when", "then", "and", "but")
+    made = []
+
+    def step_ctor(i, s_, a, k, n):
+        made.append((a[2], a[3], a[4]))
+        return [(s_, "val", s_.alloc(HObj("StepTok", {"keyword": a[2], "step_type": a[3], "name": a[4]}, label="step")))]
+    it = Interp(ix, stubs={"model.Step": step_ctor, "Step": step_ctor}, name="Parser.parse_step (all languages)")
+    it.int_sat = 1000
+    it.list_cap = 100
+    n_lang = 0
+    for lang in sorted(table):
+        kws = table[lang]
+        if not all(t in kws for t in types):
+            continue
+        n_lang += 1
+        for t in types:
+            for kw in kws[t]:
+                if kw.strip() == "*":
+                    continue
+                line = kw + "x y"
+                # a longer keyword that this very line also starts with does not exist by construction; the types that list kw:
+                owners = [t2 for t2 in types if kw in kws[t2]]
+                last = "when" if t in ("and", "but") else None
+                want_types = {(last if o in ("and", "but") else o) for o in owners}
+                del made[:]
+                st = State()
+                st.frames = []
+                kwd = st.alloc(HObj("dict", kind="dict", items=[(k_, st.alloc(HObj("list", kind="list", items=list(kws[k_])))) for k_ in types]))
+                me = st.alloc(HObj(pc, {"keywords": kwd, "last_step_type": last, "line": 3, "filename": "x.feature", "scenario_container": None,
+                                        "statement": None}, label="parser"))
+                outs = it.call_function(st, f, [line], {}, None, self_val=me)
+                chk.instance("P14")
+                if len(outs) != 1 or outs[0][1] != "val":
+                    raise AnalysisError("Parser.parse_step(%r) [%s] not foldable: %r" % (line, lang, [(k, v) for _, k, v in outs][:3]))
+                got = made[0] if made else None
+                # (the keyword is matched case-insensitively: a language may list two spellings that differ in case only)
+                if got is not None and got[0].lower() == kw.rstrip().lower() and got[1] in want_types and got[2] == "x y":
+                    chk.ok("P14", {"language": lang, "keyword": kw, "type": got[1]}, nontrivial_key=(lang, t))
+                else:
+                    chk.fail(Finding("P14", f.fullname, "[%s] %r -> %r" % (lang, line, got),
+                                     "language %s: the line %r starts with the %s keyword %r but is read as %s" % (
+                                         lang, line, t, kw, "the step (keyword, type, text) = %r" % (got,) if got else "no step"),
+                                     file=f.file, line=f.lineno, stmt="def parse_step"))
+    chk.absorb(it)
+    if n_lang < 40:
+        raise AnalysisError("only %d languages found in behave.i18n.languages" % n_lang)
+    chk.require_instances("P14", 500)
